@@ -123,18 +123,48 @@ impl Default for Fnv {
     }
 }
 
-/// Reader over one record: hands out bytes/u16s in order; exhausted reads give 0.
+/// Reader over one record: hands out bytes/u16s in order; exhausted reads give 0 (or, for a
+/// reader made with `new_extended`, the bytes of a splitmix64 stream seeded by the record itself,
+/// so that a case stays a pure function of the tape).
 pub struct Rec<'a> {
     b: &'a [u8],
     i: usize,
+    x: u64,
+    xbuf: u64,
+    xn: u8,
 }
 
 impl<'a> Rec<'a> {
     pub fn new(b: &'a [u8]) -> Self {
-        Rec { b, i: 0 }
+        Rec { b, i: 0, x: 0, xbuf: 0, xn: 0 }
+    }
+    /// for consumers that need more bytes than one record holds (C15: three 16-byte integers)
+    pub fn new_extended(b: &'a [u8]) -> Self {
+        let mut h = Fnv::new();
+        for &c in b {
+            h.write_u64(u64::from(c));
+        }
+        Rec { b, i: 0, x: h.finish() | 1, xbuf: 0, xn: 0 }
     }
     pub fn u8(&mut self) -> u8 {
-        let v = self.b.get(self.i).copied().unwrap_or(0);
+        let v = match self.b.get(self.i) {
+            Some(v) => *v,
+            None if self.x == 0 => 0,
+            None => {
+                if self.xn == 0 {
+                    self.x = self.x.wrapping_add(0x9E37_79B9_7F4A_7C15);
+                    let mut z = self.x;
+                    z = (z ^ (z >> 30)).wrapping_mul(0xBF58_476D_1CE4_E5B9);
+                    z = (z ^ (z >> 27)).wrapping_mul(0x94D0_49BB_1331_11EB);
+                    self.xbuf = z ^ (z >> 31);
+                    self.xn = 8;
+                }
+                let v = self.xbuf as u8;
+                self.xbuf >>= 8;
+                self.xn -= 1;
+                v
+            }
+        };
         self.i += 1;
         v
     }
